@@ -286,6 +286,9 @@ impl Scenario {
             }
             Err(p) => { let m = crate::panic_msg(&p); self.classify_panic(&m); self.viol("C09", format!("apply_tx_batch panicked: {}", m)); 100 }
         };
+        // input distribution, for the evidence
+        for t in txs { self.bump(&format!("tx_{}_{}", kind(t.kind), if code == 0 { "accepted" } else { "in_rejected_batch" })); }
+        self.bump(&format!("batch_size_{}", txs.len().min(7)));
         self.check_order_independence(&u, txs, code);
         self.push_step(format!("OpBatch {} {}", names, r0), code, &format!("batch[{}]", txs.iter().map(|t| kind(t.kind)).collect::<Vec<_>>().join(",")));
         code
@@ -364,6 +367,15 @@ impl Scenario {
             self.tables.reward.insert(h, id.txhash.0);
             self.dict.coin(id);
             self.dict.cov(a.unwrap().reward_dest);
+        }
+        {   // input distribution: what this seal has to settle
+            let txs: Vec<Transaction> = u.verif_transactions().iter().cloned().collect();
+            let n = |k: TxKind| txs.iter().filter(|t| t.kind == k).count();
+            self.bump(if a.is_some() { "seal_with_action" } else { "seal_without_action" });
+            if n(TxKind::Swap) > 0 { self.bump("seal_with_swaps"); }
+            if n(TxKind::LiqDeposit) > 0 { self.bump("seal_with_deposits"); }
+            if n(TxKind::LiqWithdraw) > 0 { self.bump("seal_with_withdrawals"); }
+            if n(TxKind::Swap) + n(TxKind::LiqDeposit) + n(TxKind::LiqWithdraw) >= 3 { self.bump("seal_with_3plus_pool_requests"); }
         }
         {   // known-finding classes that depend only on the state being sealed
             let legacy = matches!(u.verif_network(), NetID::Mainnet | NetID::Testnet);
